@@ -55,6 +55,12 @@ let handle (toks : string list) : string =
      | Some x -> (match item_to_uint (n_of_string bits) x with Some n -> "ok " ^ hex_of_n n | None -> "err")
      | None -> "err")
   | ["encode_uint"; n] -> hex_of_bytes (encode_uint (n_of_string n))
+  | ["typed"; name; h] ->
+    (* name is the hex of the ASCII type name *)
+    (match typed_recode (bytes_of_hex name) (bytes_of_hex h) with
+     | None -> "driver-error unknown-type"
+     | Some None -> "err"
+     | Some (Some b) -> "ok " ^ hex_of_bytes b)
   | _ -> "driver-error unknown-command"
 
 let () = self_test b2n; serve handle
